@@ -86,3 +86,59 @@ Definition run_files (texts : list (list N)) (S0 : symset) : list (option state)
 Theorem symbols_do_not_leak texts1 texts2 t S0 :
   nth_error (run_files (texts1 ++ t :: texts2) S0) (length texts1) = Some (run_text t S0).
 Proof. unfold run_files. rewrite map_app. cbn [map]. rewrite nth_error_app2, map_length, Nat.sub_diag by (rewrite map_length; lia). reflexivity. Qed.
+
+(* ---------- a line is selected only if every enclosing region is selected ---------- *)
+(* invariant of the line-by-line machine: each frame remembers whether its surroundings were selected when it was opened,
+   and a branch is active only inside selected surroundings and only once per conditional *)
+Fixpoint wf_frames (fs : list frame) : Prop :=
+  match fs with
+  | [] => True
+  | f :: r => parent f = cur r /\ (active f = true -> parent f = true /\ taken f = true) /\ wf_frames r
+  end.
+Lemma step_wf fs st l fs' st' : wf_frames fs -> step (fs, st) l = Some (fs', st') -> wf_frames fs'.
+Proof.
+  intros W E. destruct l; cbn [step] in E.
+  1-3: inversion E; subst; exact W.
+  - inversion E; subst. cbn [wf_frames parent active taken]. split; [reflexivity|split; [|exact W]].
+    intros H. apply andb_true_iff in H as [H1 H2]. rewrite H1. cbn [andb]. auto.
+  - destruct fs as [|f r]; [discriminate|]. destruct (selse f); [discriminate|]. inversion E; subst.
+    destruct W as (Wp & Wa & Wr). cbn [wf_frames parent active taken]. split; [exact Wp|split; [|exact Wr]].
+    intros H. rewrite H. apply andb_true_iff in H as [H _]. apply andb_true_iff in H as [H _]. rewrite orb_true_r. auto.
+  - destruct fs as [|f r]; [discriminate|]. destruct (selse f); [discriminate|]. inversion E; subst.
+    destruct W as (Wp & Wa & Wr). cbn [wf_frames parent active taken]. split; [exact Wp|split; [|exact Wr]].
+    intros H. apply andb_true_iff in H as [H _]. auto.
+  - destruct fs as [|f r]; [discriminate|]. inversion E; subst. destruct W as (_ & _ & Wr). exact Wr.
+  - discriminate.
+Qed.
+Lemma steps_wf : forall ls fs st fs' st', wf_frames fs -> steps (fs, st) ls = Some (fs', st') -> wf_frames fs'.
+Proof.
+  induction ls as [|l ls IH]; intros fs st fs' st' W E; cbn [steps] in E.
+  - inversion E; subst; exact W.
+  - destruct (step (fs, st) l) as [[fs1 st1]|] eqn:S1; [|discriminate]. eapply IH; [|exact E]. eapply step_wf; eauto.
+Qed.
+Lemma wf_cur_all_active fs : wf_frames fs -> cur fs = true -> Forall (fun f => active f = true) fs.
+Proof.
+  induction fs as [|f r IH]; intros W C; [constructor|]. destruct W as (Wp & Wa & Wr). cbn [cur] in C.
+  constructor; [exact C|]. apply IH; [exact Wr|]. destruct (Wa C) as [P _]. rewrite <- Wp. exact P.
+Qed.
+(* at every point of every file: if the current line is selected, every region around it is selected; hence a #define,
+   an #undef or a source line nested (to any depth) inside an unselected region has no effect *)
+Theorem selected_means_all_enclosing_selected ls S0 fs st :
+  steps ([], (S0, [])) ls = Some (fs, st) -> cur fs = true -> Forall (fun f => active f = true) fs.
+Proof. intros E C. apply wf_cur_all_active; [|exact C]. eapply steps_wf; [|exact E]. exact I. Qed.
+Theorem inside_unselected_nothing_happens ls S0 fs st l :
+  steps ([], (S0, [])) ls = Some (fs, st) -> Exists (fun f => active f = false) fs ->
+  match l with LSrc _ | LDef _ | LUndef _ => step (fs, st) l = Some (fs, st) | _ => True end.
+Proof.
+  intros E X. assert (C : cur fs = false).
+  { destruct (cur fs) eqn:C; [|reflexivity]. pose proof (selected_means_all_enclosing_selected _ _ _ _ E C) as F.
+    apply Exists_exists in X as (f & Hin & Hf). rewrite Forall_forall in F. rewrite (F f Hin) in Hf. discriminate. }
+  destruct l; auto; cbn [step]; rewrite C; reflexivity.
+Qed.
+(* a branch is entered at most once per conditional: once a branch was taken, no later #elif or #else of it is active *)
+Theorem taken_blocks_later_branches f r st l fs' st' : taken f = true -> step (f :: r, st) l = Some (fs', st') ->
+  match l with LElif _ | LElse => cur fs' = false | _ => True end.
+Proof.
+  intros T E. destruct l; auto; cbn [step] in E; destruct (selse f); try discriminate; inversion E; subst; cbn [cur active];
+    rewrite T; cbn; rewrite ?andb_false_r; reflexivity.
+Qed.
